@@ -101,25 +101,18 @@ def run(rep, tier):
     wm = pick(F, W + "::WriteData", "MatrixBase")
     rm = pick(F, R + "::ReadData", "MatrixBase")
     rep.analysed(wm); rep.analysed(rm)
-    names = ["fileRows", "fStride", "fCount", "fBlock", "mStride", "mCount", "mBlock", "mDim", "fStart", "mStart", "matColSize"]
-    wi, ri = inits(wm, names), inits(rm, names)
-    for nme in names:
-        rep.check(nme in wi and wi.get(nme) == ri.get(nme), "R17.3", "hyperslab|" + nme, "%s = %s on both sides" % (nme, wi.get(nme)),
-                  "matrix hyperslab parameter %s is %s in the writer but %s in the reader: stored matrices are read back scrambled" % (nme, wi.get(nme), ri.get(nme)), rm.loc(), sample=(nme in ("mStride", "fStart")))
-    sel_w = [nows(show(n)) for n in wm.walk() if n.get("k") == "mcall" and (n.get("callee") or n.get("callee_expr") and "selectHyperslab" or "").endswith("selectHyperslab")]
-    sel_r = [nows(show(n)) for n in rm.walk() if n.get("k") == "mcall" and (n.get("callee") or "").endswith("selectHyperslab")]
-    rep.check(sel_w == sel_r and len(sel_w) == 2, "R17.3", "hyperslab|selection", "identical selectHyperslab calls", "selectHyperslab calls differ: writer %s reader %s" % (sel_w, sel_r), rm.loc())
-    io_w = [nows(show(n)) for n in wm.walk() if n.get("k") == "mcall" and (n.get("callee") or "").endswith("DataSet::write")]
-    io_r = [nows(show(n)) for n in rm.walk() if n.get("k") == "mcall" and (n.get("callee") or "").endswith("DataSet::read")]
-    okio = len(io_w) == 1 and len(io_r) == 1 and io_w[0].replace("dataset.write(", "") == io_r[0].replace("dataset.read(", "")
-    rep.check(okio, "R17.3", "hyperslab|transfer", "write/read(data, type, mspace, dp)", "transfer calls differ: %s vs %s" % (io_w, io_r), rm.loc())
-    rs = [nows(show(n)) for n in rm.walk() if n.get("k") == "mcall" and (n.get("callee") or "").endswith("::resize")]
-    dims = inits(rm, ["matRows", "matCols"])
-    rep.check(rs == ["matrix.derived().resize(matRows,matCols)"] and dims == {"matRows": "dims[0]", "matCols": "dims[1]"}, "R17.3", "reader-resize", "reader resizes to the stored extent",
-              "ReadData resizes with %s where %s" % (rs, dims), rm.loc())
-    wd = inits(wm, ["matRows", "matCols"])
-    rep.check(wd == {"matRows": "hsize_t(matrix.rows())", "matCols": "hsize_t(matrix.cols())"} or wd == {"matRows": "(hsize_t)matrix.rows()", "matCols": "(hsize_t)matrix.cols()"} or
-              all("matrix.rows()" in wd.get("matRows", "") and "matrix.cols()" in wd.get("matCols", "") for _ in [0]), "R17.3", "writer-extent", "writer stores (rows, cols)", "WriteData extent is %s" % wd, wm.loc())
+    sides = {}
+    for side, f_ in (("writer", wm), ("reader", rm)):
+        sides[side] = matrix_io(f_, side)
+    w_, r_ = sides["writer"], sides["reader"]
+    for key, what in (("loop", "row loop (first row, bound, step)"), ("fsel", "file-space selection (count, start, stride, block)"), ("msel", "memory-space selection (count, start, stride, block)"),
+                      ("mspace", "memory dataspace extent"), ("xfer", "transfer arguments (data, type, memory space, file space)")):
+        rep.check(w_.get(key) is not None and w_.get(key) == r_.get(key), "R17.3", "hyperslab|" + key, "%s: %s on both sides" % (what, w_.get(key)),
+                  "matrix %s is %s in the writer but %s in the reader (R = rows, C = cols, OS = outer stride, I = row index): stored matrices are read back scrambled" % (what, w_.get(key), r_.get(key)),
+                  rm.loc(), sample=(key in ("msel", "fsel")))
+    rep.check(r_.get("resize") == "R,C" and r_.get("extent_src") is True, "R17.3", "reader-resize", "reader resizes to the stored extent",
+              "ReadData resizes the target to (%s) (R, C = the extent read from the dataset's dataspace: %s)" % (r_.get("resize"), r_.get("extent_src")), rm.loc())
+    rep.check(w_.get("extent") == "list(R, C)", "R17.3", "writer-extent", "writer stores (rows, cols)", "WriteData creates the dataset with extent %s" % w_.get("extent"), wm.loc())
 
     # ---------------------------------------------------------------- R17.4
     n_ops = 0
@@ -301,3 +294,68 @@ def check_list_names(rep, F, W, R):
     rep.check(nw == nr and dep(nw), "R17.6", "list-member-names", "element p is stored and fetched under the same name(p) = %s" % (nw,),
               "a list of 3-vectors is written with member names %s but read back from %s: elements come back in another order (HDF5 enumerates links "
               "lexicographically: ind0, ind1, ind10, ind11, ind2, ...) or from other members" % (nw, nr), fr.loc(er["node"]), sample=True)
+
+
+def matrix_io(f, side):
+    """canonical description of the row-wise hyperslab transfer of a matrix: R = rows, C = cols, OS = outer stride of the Eigen object, I = row index"""
+    fo = Fold(f, record_calls=r"selectHyperslab$|DataSet::(write|read)$|::resize$|getSimpleExtentDims$|createDataSet$", inline=False).run()
+    ev = [e for e in fo.events if e["kind"] == "call"]
+    short = lambda e: e["callee"].split("::")[-1]
+    mp = f.j["params"][1]["name"]
+    out = {}
+    subs = []
+    M = r"(?:mat\{[^}]*\}|derived\(%s\)|%s)" % (re.escape(mp), re.escape(mp))
+    io = [e for e in ev if short(e) in ("write", "read")]
+    if len(io) != 1 or len(io[0]["args"]) < 4:
+        return out
+    fspace = str(io[0]["args"][3])                      # the file dataspace handed to the transfer
+    if side == "writer":
+        subs += [(r"rows\(%s\)" % M, "R"), (r"cols\(%s\)" % M, "C")]
+    else:
+        gd = [e for e in ev if short(e) == "getSimpleExtentDims" and not e["guards"]]
+        if len(gd) != 1:
+            return out
+        D = re.escape(str(gd[0]["args"][0]))
+        subs += [(r"at\(%s, 0\)" % D, "R"), (r"at\(%s, 1\)" % D, "C")]
+        out["extent_src"] = "getSpace(openDataSet(" in fspace and str(gd[0]["obj"]) == fspace
+    subs += [(r"outerStride\(%s\)" % M, "OS"), (r"data\(%s\)" % M, "DATA"), (r"i?\w*@L\d+", "I")]
+
+    def canon(v):
+        t = str(v)
+        if fspace:
+            t = t.replace(fspace, "FSPACE")
+        for rx, to in subs:
+            t = re.sub(rx, to, t)
+        return t
+    if side == "writer":
+        ext = re.match(r"^ctor\(2, (.*), nullptr\)$", fspace)
+        e_ = ext.group(1) if ext else None
+        for rx, to in subs:
+            e_ = re.sub(rx, to, e_) if e_ is not None else None
+        # a zero column count is stored as one column (HDF5 extents must be positive): same extent for every matrix that has data
+        e_ = e_.replace("ite((C == 0), 1, C)", "C") if e_ is not None else None
+        out["extent"] = e_ if fspace in str(io[0]["obj"]) else "%s, but the dataset is created as %s" % (e_, str(io[0]["obj"])[:120])
+    sel = [e for e in ev if short(e) == "selectHyperslab"]
+    if len(sel) != 2:
+        return out
+    lids = {tuple(g[0][1] for g in e["guards"] if isinstance(g[0], tuple) and g[0] and g[0][0] == "loop") for e in sel + io}
+    if len(lids) != 1 or len(next(iter(lids))) != 1:
+        return out
+    lid = next(iter(lids))[0]
+    lp = [l for l in fo.loops if l["lid"] == lid][0]
+    keys = [k_ for k_, sy in lp["syms"].items()]
+    ivar = [k_ for k_ in keys if lp["syms"][k_] in getattr(lp["cond"][1], "free_symbols", set()) | getattr(lp["cond"][2], "free_symbols", set())] if isinstance(lp["cond"], tuple) and len(lp["cond"]) == 3 else []
+    if len(ivar) == 1:
+        k_ = ivar[0]
+        out["loop"] = "from %s while %s step %s" % (canon(lp["init"].get(k_)), canon(fo.cond_str(lp["cond"])), canon(lp["step"].get(k_)))
+    fs = [e for e in sel if str(e["obj"]) == fspace]
+    ms = [e for e in sel if str(e["obj"]) != fspace]
+    if len(fs) == 1 and len(ms) == 1:
+        out["fsel"] = canon(fs[0]["args"][1:])
+        out["msel"] = canon(ms[0]["args"][1:])
+        out["mspace"] = canon(ms[0]["obj"])
+    out["xfer"] = canon(io[0]["args"][:4])
+    rs = [e for e in ev if short(e) == "resize" and not e["guards"] and not e.get("not")]
+    if rs:
+        out["resize"] = ",".join(canon(a_) for a_ in rs[0]["args"])
+    return out
